@@ -7,7 +7,12 @@
    is_running()/ppid()/signals/setters on any object.  Every theorem is quantified over all of them, so the
    answers do not depend on clock adjustments or on other calls made in between.  Objects are those created at
    any point of the history, by Process(pid) or by process_iter(). *)
-From PV Require Import Proc.Spec Proc.Proofs.
+(* NOTE on [wf_hist]: besides "a PID is handed out only when free" and "distinct start ticks per PID" it excludes
+   Deny events: the theorems stated over well-formed histories are for a kernel that lets psutil read
+   /proc/<pid>/stat.  Without that psutil cannot tell a process from a later owner of its PID (is_running() stays
+   True, == is False against identified objects); what is demanded and proved there -- for EVERY history -- is in
+   the second group of theorems below (C02_identity_never_changes ... C02_example_no_identity). *)
+From PV Require Import Proc.Spec Proc.Proofs Proc.ProofsPure.
 
 (* a == b exactly when both objects were created for the same process start ... *)
 Theorem C02_eq_iff_same_incarnation : forall h a b,
@@ -96,6 +101,63 @@ Theorem C02_is_running_monotone : forall h1 h2 o,
   outcome_of (run (h1 ++ h2)) (EC (IsRunning o)) = Val (RBool false).
 Proof. exact is_running_monotone. Qed.
 Print Assumptions C02_is_running_monotone.
+
+(* ---- consistency and stability of ==, hash() and is_running() over the whole life of ONE object, after EVERY
+   history: events in any order, well formed or not, including Deny/Allow events (the stat file of a PID cannot be
+   read: EACCES) -- so including objects built while the file was unreadable (_ident = (pid, None)), compared or
+   probed before and after it becomes readable, with the PID recycled in between.  No hypothesis at all. *)
+
+(* the identity (pid, start ticks or None) an object was built with never changes: hash() repeats for ever,
+   membership in a set or dict built earlier cannot change, nothing is adopted from a later owner of the PID *)
+Theorem C02_identity_never_changes : forall h1 h2 o id,
+  obj_ident (run h1) o = Some id -> obj_ident (run (h1 ++ h2)) o = Some id.
+Proof. exact identity_never_changes. Qed.
+Print Assumptions C02_identity_never_changes.
+
+(* hash agrees with == in every world: the two answers are the same boolean, and each hash() equals the hash
+   of the object's identity (second component true); in particular equal objects hash alike *)
+Theorem C02_hash_agrees_with_eq : forall h a b,
+  has_obj (run h) a = true -> has_obj (run h) b = true ->
+  exists e, outcome_of (run h) (EC (EqC a b)) = Val (RBool e)
+            /\ outcome_of (run h) (EC (HashEq a b)) = Val (RHash e true).
+Proof. exact hash_agrees_with_eq. Qed.
+Print Assumptions C02_hash_agrees_with_eq.
+
+Theorem C02_equal_implies_same_hash : forall h a b,
+  has_obj (run h) a = true -> has_obj (run h) b = true ->
+  outcome_of (run h) (EC (EqC a b)) = Val (RBool true) ->
+  outcome_of (run h) (EC (HashEq a b)) = Val (RHash true true).
+Proof. exact equal_implies_same_hash. Qed.
+Print Assumptions C02_equal_implies_same_hash.
+
+(* once an is_running() call has answered False, every later one answers False -- whatever happens in between *)
+Theorem C02_is_running_false_for_ever : forall h1 h2 o,
+  outcome_of (run h1) (EC (IsRunning o)) = Val (RBool false) ->
+  outcome_of (run (h1 ++ EC (IsRunning o) :: h2)) (EC (IsRunning o)) = Val (RBool false).
+Proof. exact is_running_false_for_ever. Qed.
+Print Assumptions C02_is_running_false_for_ever.
+
+(* an object without identity equals no object that has one: not a fresh object for the very same process, not
+   an object of a later owner of the PID (psutil cannot know; it never guesses) *)
+Theorem C02_no_identity_equals_none_with_identity : forall h a b x y,
+  nth_error (objs (ms (run h))) a = Some x -> nth_error (objs (ms (run h))) b = Some y ->
+  ostart x = None -> ostart y <> None ->
+  outcome_of (run h) (EC (EqC a b)) = Val (RBool false)
+  /\ outcome_of (run h) (EC (EqC b a)) = Val (RBool false).
+Proof. exact no_identity_equals_none_with. Qed.
+Print Assumptions C02_no_identity_equals_none_with_identity.
+
+(* the class is inhabited: stat of PID 5 unreadable while object 0 is built (no identity), hash taken, the PID
+   recycled, the file readable again, a fresh object 1 for the new owner: identity and hash of object 0 unchanged,
+   0 != 1, is_running() of object 0 False (and the identity still (5, None) after further calls) *)
+Theorem C02_example_no_identity :
+  obj_ident (run ex_blind) 0 = Some (5, None) /\ obj_ident (run ex_blind) 1 = Some (5, Some 101)
+  /\ outcome_of (run ex_blind) (EC (HashEq 0 0)) = Val (RHash true true)
+  /\ outcome_of (run ex_blind) (EC (EqC 0 1)) = Val (RBool false)
+  /\ outcome_of (run ex_blind) (EC (IsRunning 0)) = Val (RBool false)
+  /\ obj_ident (run (ex_blind ++ [EC (IsRunning 0); EC (HashEq 0 1)])) 0 = Some (5, None).
+Proof. exact ex_blind_ok. Qed.
+Print Assumptions C02_example_no_identity.
 
 (* the answers the harness demands of the implementation (spec_call) are met by the model in every reachable world *)
 Theorem C02_model_meets_spec : forall h c, wf_hist h = true ->
